@@ -59,6 +59,16 @@ abbrev Mem := Loc → Int
 def dispIndex (dispUnit disp : Nat) : Option Nat :=
   if (disp * dispUnit) % 4 = 0 then some (disp * dispUnit / 4) else none
 
+/-- `disp_unit` is an argument of `MPI_Win_create` that every rank chooses for *its own* window (`Win::disp_unit_`), and
+a displacement is scaled by the unit of the rank that owns the memory: `recv_win->base_ + target_disp *
+recv_win->disp_unit_` in `Win::put` / `accumulate_unlocked`, `send_win->base_ + target_disp * send_win->disp_unit_` in
+`Win::get` (hence Get_accumulate, Fetch_and_op, Compare_and_swap).  `dus` = the units of ranks 0..n-1; the origin's own
+unit plays no role.  `none`: no such target, or misaligned. -/
+def dispIndexAt (dus : List Nat) (t disp : Nat) : Option Nat :=
+  match dus[t]? with
+  | some du => dispIndex du disp
+  | none => none
+
 /-! ## The calls -/
 
 /-- one RMA call, displacements already converted to int indices.  `id` names the result buffer. -/
@@ -109,8 +119,21 @@ def Call.exec (c : Call) (m : Mem) : Mem :=
     | .win r i => if r = t ∧ i = d then (if m (.win t d) = cmp then new else m (.win t d)) else m loc
     | .res j k => if j = id ∧ k = 0 then m (.win t d) else m loc
 
+/-- the rank whose window the call accesses -/
+def Call.target : Call → Nat
+  | .put t _ _ => t
+  | .get _ t _ _ => t
+  | .acc t _ _ _ => t
+  | .gacc _ t _ _ _ => t
+  | .cas _ t _ _ _ => t
+
+/-- window sizes (in ints): every rank exposes a window of its own size (`MPI_Win_create(base, size, …)` is called by
+each rank with its own arguments); the range check compares with the size of the *target's* window (`win->size_` where
+`win = connected_wins_[target_rank]`) -/
+abbrev WSizes := Nat → Nat
+
 /-- with the range check of the code -/
-def Call.execW (w : Nat) (c : Call) (m : Mem) : Mem := if c.rangeErr w then m else c.exec m
+def Call.execW (ws : WSizes) (c : Call) (m : Mem) : Mem := if c.rangeErr (ws c.target) then m else c.exec m
 
 /-- locations a call may write -/
 def Call.writes : Call → List Loc
@@ -152,9 +175,9 @@ def commuteC (a b : Call) : Bool :=
 call under lock_all / between fences. -/
 abbrev Block := List Call
 
-def Block.exec (w : Nat) (b : Block) (m : Mem) : Mem := b.foldl (fun m c => c.execW w m) m
+def Block.exec (w : WSizes) (b : Block) (m : Mem) : Mem := b.foldl (fun m c => c.execW w m) m
 
-def runBlocks (w : Nat) (bs : List Block) (m : Mem) : Mem := bs.foldl (fun m b => Block.exec w b m) m
+def runBlocks (w : WSizes) (bs : List Block) (m : Mem) : Mem := bs.foldl (fun m b => Block.exec w b m) m
 
 /-- all merges of two sequences that keep each sequence's own order -/
 def merge2 {α : Type} : List α → List α → List (List α)
@@ -201,11 +224,11 @@ def matchesObs (n w : Nat) (m : Mem) (o : Obs) : Bool :=
   o.results.all (fun (id, vals) => (List.range vals.length).map (fun k => m (.res id k)) == vals)
 
 /-- **Monitor.**  The observation is one of the results the specification allows for the phase started in `m0`. -/
-def allowed (n w : Nat) (m0 : Mem) (ph : Phase) (o : Obs) : Bool :=
-  (merges ph).any (fun order => matchesObs n w (runBlocks w order m0) o)
+def allowed (n w : Nat) (ws : WSizes) (m0 : Mem) (ph : Phase) (o : Obs) : Bool :=
+  (merges ph).any (fun order => matchesObs n w (runBlocks ws order m0) o)
 
 /-- the specification's result for one fixed serialisation: program order of origin 0, then origin 1, ... -/
-def canonical (w : Nat) (m0 : Mem) (ph : Phase) : Mem := runBlocks w ph.flatten m0
+def canonical (w : WSizes) (m0 : Mem) (ph : Phase) : Mem := runBlocks w ph.flatten m0
 
 /-! ## Mech: the request plumbing of smpi_win.cpp
 
